@@ -424,7 +424,9 @@ func (p *notifier) notifyNow(event Event) error {
 				// no longer exists so done, this stops any go routine
 				return nil
 			}
-			return retry.Unrecoverable(err)
+			// A storage error (e.g. a lock time-out) is no reason to stop retrying: the event would not be retried
+			// (nor show up as failed) until the next restart. The retry loop is bounded by its attempts and back-off.
+			return err
 		}
 		if dbEvent == nil {
 			// no longer exists so done, this stops any go routine
@@ -459,7 +461,8 @@ func (p *notifier) notifyNow(event Event) error {
 			}
 			return p.writeEvent(writer, *dbEvent)
 		}); err != nil {
-			return retry.Unrecoverable(err)
+			// see above: storage errors do not stop the retry loop
+			return err
 		}
 	}
 
